@@ -146,6 +146,101 @@ func (m msgSpec) hdr() int {
 
 func ip(i int) *int { return &i }
 
+// ---------------------------------------------------------------- interceptors that change the size
+type icptSpec struct {
+	Kind string `json:"kind"` // grow | setval | header | panic
+	D    int    `json:"d,omitempty"`
+	K    int    `json:"k,omitempty"`
+	V    int    `json:"v,omitempty"`
+}
+
+func (i icptSpec) coq() string {
+	switch i.Kind {
+	case "grow":
+		return fmt.Sprintf("IGrowVal %d", i.D)
+	case "setval":
+		return fmt.Sprintf("ISetVal %d", i.V)
+	case "header":
+		return fmt.Sprintf("IAddHeader %d %d", i.K, i.V)
+	}
+	return "IPanic"
+}
+
+type sizeIcpt struct{ s icptSpec }
+
+func (x sizeIcpt) OnSend(m *sarama.ProducerMessage) {
+	var old []byte
+	if m.Value != nil {
+		old, _ = m.Value.Encode()
+	}
+	switch x.s.Kind {
+	case "grow":
+		nv := make([]byte, len(old)+x.s.D)
+		copy(nv, old)
+		m.Value = sarama.ByteEncoder(nv)
+	case "setval":
+		nv := make([]byte, x.s.V)
+		copy(nv, old) // keeps the id prefix
+		m.Value = sarama.ByteEncoder(nv)
+	case "header":
+		m.Headers = append(m.Headers, sarama.RecordHeader{Key: make([]byte, x.s.K), Value: make([]byte, x.s.V)})
+	case "panic":
+		panic("interceptor panics")
+	}
+}
+
+// what the chain makes of a message (the harness's own reading of its interceptors)
+func applyIcpts(is []icptSpec, m msgSpec) msgSpec {
+	for _, i := range is {
+		switch i.Kind {
+		case "grow":
+			v := i.D
+			if m.Val != nil {
+				v += *m.Val
+			}
+			m.Val = ip(v)
+		case "setval":
+			m.Val = ip(i.V)
+		case "header":
+			m.Headers = append(append([][2]int{}, m.Headers...), [2]int{i.K, i.V})
+			m.HasHeaders = true
+		}
+	}
+	return m
+}
+
+func genIcpts(r *rand.Rand, c cfgSpec) []icptSpec {
+	switch r.Intn(6) {
+	case 0:
+		return []icptSpec{{Kind: "grow", D: []int{1, 2, 40, 80}[r.Intn(4)]}}
+	case 1:
+		return []icptSpec{{Kind: "setval", V: c.MaxMessageBytes - overhead(c) - 20}}
+	case 2:
+		if isBatch(c.Version) {
+			return []icptSpec{{Kind: "header", K: 3 + r.Intn(5), V: 30 + r.Intn(40)}}
+		}
+		return []icptSpec{{Kind: "panic"}, {Kind: "grow", D: 45}}
+	case 3:
+		return []icptSpec{{Kind: "grow", D: 50}, {Kind: "panic"}, {Kind: "grow", D: 3}}
+	}
+	return nil
+}
+
+// change of byteSize the chain causes on a message without headers (setval: not a delta)
+func icptDelta(is []icptSpec) (delta int, absolute bool) {
+	for _, i := range is {
+		switch i.Kind {
+		case "grow":
+			delta += i.D
+		case "header":
+			delta += i.K + i.V + 10
+		case "setval":
+			absolute = true
+		}
+	}
+	return
+}
+
 func genCfg(r *rand.Rand, tightReq bool) cfgSpec {
 	c := cfgSpec{Version: versions[r.Intn(len(versions))], MaxRequestSize: 100 * 1024 * 1024}
 	c.MaxMessageBytes = []int{120, 200, 333, 500, 1000, 2000}[r.Intn(6)]
@@ -496,7 +591,7 @@ func topicIndex(name string) int64 {
 }
 
 // ---------------------------------------------------------------- (b) requests measured at the broker
-func runBroker(r *rand.Rand, c cfgSpec, msgs []msgSpec, ntopics, nparts int, latency time.Duration, pauseEvery int) (fate [][2]int64, reqs []reqObs, mon *cf.Monitor, err error) {
+func runBroker(r *rand.Rand, c cfgSpec, icpts []icptSpec, msgs []msgSpec, ntopics, nparts int, latency time.Duration, pauseEvery int) (fate [][2]int64, reqs []reqObs, mon *cf.Monitor, err error) {
 	sarama.MaxRequestSize = c.MaxRequestSize
 	defer func() { sarama.MaxRequestSize = 100 * 1024 * 1024 }()
 	setMon := func(sig, what string) {
@@ -508,12 +603,30 @@ func runBroker(r *rand.Rand, c cfgSpec, msgs []msgSpec, ntopics, nparts int, lat
 	b := newBroker(rep, c, ntopics, nparts, latency)
 	defer b.Close()
 	conf := c.config()
+	for _, i := range icpts {
+		conf.Producer.Interceptors = append(conf.Producer.Interceptors, sizeIcpt{i})
+	}
 	prod, client, err := newProducer(b, conf, ntopics, nparts)
 	if err != nil {
 		return nil, nil, nil, err
 	}
 	defer client.Close()
-	tracerG.register(prod, c, msgs, "broker")
+	final := make([]msgSpec, len(msgs))
+	for i, m := range msgs {
+		final[i] = applyIcpts(icpts, m)
+	}
+	tracerG.register(prod, c, final, "broker")
+	wireKV := map[int64]int{} // key+value bytes of the message object the producer returned (what was / would be encoded)
+	sizeOf := func(m *sarama.ProducerMessage) int {
+		n := 0
+		if m.Key != nil {
+			n += m.Key.Length()
+		}
+		if m.Value != nil {
+			n += m.Value.Length()
+		}
+		return n
+	}
 	codes := map[int64]int64{}
 	var wg sync.WaitGroup
 	wg.Add(2)
@@ -523,6 +636,7 @@ func runBroker(r *rand.Rand, c cfgSpec, msgs []msgSpec, ntopics, nparts int, lat
 		for m := range prod.Successes() {
 			mu.Lock()
 			codes[m.Metadata.(int64)] = 0
+			wireKV[m.Metadata.(int64)] = sizeOf(m)
 			mu.Unlock()
 		}
 	}()
@@ -589,12 +703,17 @@ func runBroker(r *rand.Rand, c cfgSpec, msgs []msgSpec, ntopics, nparts int, lat
 			code = 4
 		}
 		fate = append(fate, [2]int64{m.ID, code})
-		// monitor: oversize messages are rejected, clearly small ones are not
-		if m.kv() > c.MaxMessageBytes && code == 0 {
-			setMon("limit:oversize-sent", fmt.Sprintf("message %d with %d key+value bytes > MaxMessageBytes=%d was delivered", m.ID, m.kv(), c.MaxMessageBytes))
+		// monitor, judged on the message as it goes to the wire (after the interceptors): oversize messages are
+		// rejected and never sent; messages that are clearly within the limit are not rejected as too large
+		if code == 0 && wireKV[m.ID] > c.MaxMessageBytes {
+			setMon("limit:oversize-sent", fmt.Sprintf("message %d was delivered with %d key+value bytes > MaxMessageBytes=%d", m.ID, wireKV[m.ID], c.MaxMessageBytes))
 		}
-		if m.kv()+m.hdr()+100 <= c.MaxMessageBytes && code == 2 {
-			setMon("limit:small-message-rejected", fmt.Sprintf("message %d with %d key+value bytes rejected as too large (MaxMessageBytes=%d)", m.ID, m.kv(), c.MaxMessageBytes))
+		fm := applyIcpts(icpts, m)
+		if code == 0 && fm.kv() > c.MaxMessageBytes {
+			setMon("limit:oversize-sent", fmt.Sprintf("message %d has %d key+value bytes after the interceptors > MaxMessageBytes=%d but was delivered", m.ID, fm.kv(), c.MaxMessageBytes))
+		}
+		if code == 2 && fm.kv()+fm.hdr()+100 <= c.MaxMessageBytes {
+			setMon("limit:oversize-rejected-wrongly", fmt.Sprintf("message %d has %d key+value bytes after the interceptors (MaxMessageBytes=%d) but was rejected as too large", m.ID, fm.kv(), c.MaxMessageBytes))
 		}
 	}
 	for _, rr := range b.History() {
@@ -627,6 +746,9 @@ func runBroker(r *rand.Rand, c cfgSpec, msgs []msgSpec, ntopics, nparts int, lat
 			total += bt.Messages
 			if bt.Messages >= 2 && bt.KVBytes >= c.MaxMessageBytes {
 				setMon("limit:batch-bytes", fmt.Sprintf("batch %s/%d carries %d messages with %d key+value bytes >= MaxMessageBytes=%d", bt.Topic, bt.Partition, bt.Messages, bt.KVBytes, c.MaxMessageBytes))
+			}
+			if bt.Messages == 1 && bt.KVBytes > c.MaxMessageBytes {
+				setMon("limit:oversize-sent", fmt.Sprintf("a message with %d key+value bytes > MaxMessageBytes=%d reached the broker (%s/%d)", bt.KVBytes, c.MaxMessageBytes, bt.Topic, bt.Partition))
 			}
 		}
 		if c.MaxMessages > 0 && total > c.MaxMessages {
@@ -1038,10 +1160,16 @@ func main() {
 			c.FlushFreqMs = 5
 		}
 		nt, np := 1+r.Intn(2), 1+r.Intn(3)
+		icpts := genIcpts(r, c)
+		delta, absolute := icptDelta(icpts)
 		var msgs []msgSpec
 		for j, k := 0, 15+r.Intn(40); j < k; j++ {
 			var target int
 			switch x := r.Intn(10); {
+			case x < 3 && absolute: // any size, also far too large: the interceptor replaces the value
+				target = c.MaxMessageBytes + 50 + r.Intn(300)
+			case x < 3 && delta > 0: // straddles the limit after the interceptors
+				target = c.MaxMessageBytes - delta + r.Intn(3) - 1
 			case x < 1:
 				target = c.MaxMessageBytes + r.Intn(3) - 1
 			case x < 3:
@@ -1062,7 +1190,7 @@ func main() {
 		if os.Getenv("C16_DEBUG") != "" {
 			fmt.Fprintf(os.Stderr, "=== broker case %d cfg %+v nmsgs %d\n", i, c, len(msgs))
 		}
-		fate, reqs, mon, err := runBroker(r, c, msgs, nt, np, latency, []int{0, 0, 3, 7}[r.Intn(4)])
+		fate, reqs, mon, err := runBroker(r, c, icpts, msgs, nt, np, latency, []int{0, 0, 3, 7}[r.Intn(4)])
 		if err != nil {
 			fmt.Fprintln(os.Stderr, "broker run failed:", err)
 			os.Exit(3)
@@ -1071,7 +1199,11 @@ func main() {
 		for _, f := range fate {
 			fs = append(fs, fmt.Sprintf("(%d, %d)", f[0], f[1]))
 		}
-		term := fmt.Sprintf("{| bc_cfg := %s; bc_msgs := %s; bc_fate := %s; bc_reqs := %s |}", c.coq(), coqMsgs(msgs), cf.List(fs), coqReqs(reqs))
+		var is []string
+		for _, x := range icpts {
+			is = append(is, x.coq())
+		}
+		term := fmt.Sprintf("{| bc_cfg := %s; bc_icpts := %s; bc_msgs := %s; bc_fate := %s; bc_reqs := %s |}", c.coq(), cf.List(is), coqMsgs(msgs), cf.List(fs), coqReqs(reqs))
 		multi := false
 		for _, q := range reqs {
 			for _, row := range q.Batches {
@@ -1080,7 +1212,7 @@ func main() {
 				}
 			}
 		}
-		wb.Add(term, cf.Sidecar{Case: map[string]interface{}{"cfg": c, "msgs": msgs, "latency_ms": latency / time.Millisecond, "fate": fate, "requests": reqs}, Kind: "broker", Nontrivial: multi, Monitor: mon})
+		wb.Add(term, cf.Sidecar{Case: map[string]interface{}{"cfg": c, "interceptors": icpts, "msgs": msgs, "latency_ms": latency / time.Millisecond, "fate": fate, "requests": reqs}, Kind: "broker", Nontrivial: multi, Monitor: mon})
 	}
 
 	// ---- (c) in parallel (no global is touched)
